@@ -840,3 +840,260 @@ def tab6(units, R):
     R.ob('TAB6', fn, None, 'UTF-8 length / lead-byte marks are 1:-, 2:0xC0, 3:0xE0, 4:0xF0', marks == {1: None, 2: 0xC0, 3: 0xE0, 4: 0xF0},
          'found %s' % {k: (hex(v) if v is not None else None) for k, v in sorted(marks.items())}, key='marks')
     R.floor('TAB6', 'constant groups', len(bounds) + len(consts), 6)
+
+
+# ---- TAB17 in-band failure results are honoured -----------------------------------------------------------------------------
+
+# static functions that report failure in-band: name -> sentinel (0 = zero/false, 'null' = NULL pointer)
+SENTINELS = {
+    'parse_hex4': 0, 'utf16_literal_to_utf8': 0, 'parse_number': 0, 'parse_string': 0, 'parse_value': 0, 'parse_array': 0,
+    'parse_object': 0, 'print_number': 0, 'print_string_ptr': 0, 'print_string': 0, 'print_value': 0, 'print_array': 0,
+    'print_object': 0, 'ensure': 'null', 'decode_array_index_from_pointer': 0, 'insert_item_in_array': 0,
+}
+# exceptions: a zero result that is also a legitimate value and whose callers deal with it
+SENTINEL_NOTE = {'parse_hex4': 'zero is also the value of "0000"; \\u0000 is documented as unsupported, so both must be refused'}
+
+
+FAILURE_IS_NONZERO = {'apply_patch'}    # returns a status code: 0 = success
+
+
+def _env_transfer(nd, env):
+    """Constant propagation step for simple locals (integers and NULL pointers, NULL encoded as 0)."""
+    root = nd.expr if nd.expr is not None else None
+    if nd.kind == 'decl':
+        d = nd.decl
+        if 'init' in d:
+            v = const_val(d['init'])
+            if v is None and is_null_const(d['init']):
+                v = 0
+            if v is not None:
+                env[d['d']] = v
+            else:
+                env.pop(d['d'], None)
+        return env
+    if root is None:
+        return env
+    for x in walk(root):
+        if x.get('k') == 'bin' and x['op'] in ASSIGN_OPS and is_ref(x['l']):
+            d = strip_casts(x['l'])['d']
+            v = const_val(x['r']) if x['op'] == '=' else None
+            if v is None and x['op'] == '=' and is_null_const(x['r']):
+                v = 0
+            if v is not None:
+                env[d] = v
+            else:
+                env.pop(d, None)
+        elif x.get('k') == 'un' and x['op'] in ('post++', 'post--', 'pre++', 'pre--', '&') and is_ref(x['e']):
+            env.pop(strip_casts(x['e'])['d'], None)
+    return env
+
+
+def _const_env(fn, cfg):
+    from ..dataflow import solve
+
+    def join(a, b):
+        return {k: v for k, v in a.items() if b.get(k) == v}
+    return solve(cfg, {}, lambda n, s: _env_transfer(n, dict(s)), lambda n, l, s: s, join)
+
+
+def _failure_value(fn, u):
+    """What a function itself returns on failure: 0/false/NULL for everything in this code base."""
+    return 0
+
+
+def _fold_under(e, var_d, K):
+    """Truth of condition e under the hypothesis that variable var_d holds K (None if undecided)."""
+    e = strip_casts(e)
+    if e.get('k') == 'ref' and e.get('d') == var_d:
+        return (K != 0) if K != 'null' else False
+    if e.get('k') == 'bin' and e['op'] in CMP_OPS:
+        for (x, y, flip) in ((e['l'], e['r'], False), (e['r'], e['l'], True)):
+            x0 = strip_casts(x)
+            if x0.get('k') == 'ref' and x0.get('d') == var_d:
+                if K == 'null':
+                    if is_null_const(y):
+                        return e['op'] == '=='
+                    return None
+                c = const_val(y)
+                if c is None:
+                    return None
+                op = e['op']
+                if flip:
+                    op = {'<': '>', '>': '<', '<=': '>=', '>=': '<=', '==': '==', '!=': '!='}[op]
+                return {'==': K == c, '!=': K != c, '<': K < c, '<=': K <= c, '>': K > c, '>=': K >= c}[op]
+    return None
+
+
+def tab17(units, R):
+    """The failure result of an in-band-status function is never treated as a success: following the code under the
+    hypothesis 'the call returned its failure value' reaches only failure returns (or propagates the value)."""
+    n = 0
+    for u, fn in all_functions(units):
+        calls = [c for c in fn.calls() if callee_name(c) in SENTINELS and callee_name(c) in u.functions]
+        if not calls:
+            continue
+        cfg = fn.cfg()
+        par = fn.parents()
+        for c in calls:
+            cn = callee_name(c)
+            K = SENTINELS[cn]
+            node = node_containing(cfg, c)
+            p = par.get(c['id'])
+            while p is not None and p.get('k') == 'cast':
+                p = par.get(p['id'])
+            n += 1
+            okret = lambda r: r.expr is not None and (const_val(r.expr) == 0 or is_null_const(r.expr))
+            # 1. returned directly: the caller's caller deals with it
+            if node.kind == 'return' and strip_casts(node.expr) is c:
+                R.ob('TAB17', fn, c, 'failure result of %s is propagated' % cn, True, 'returned directly', key='result:%s:ret' % cn)
+                continue
+            # 2. the call is (under `!`) the branch condition
+            if node.kind == 'branch' and strip_casts(node.expr) is c:
+                starts = [y for (y, l) in cfg.succ[node.id] if l and l[0] == 'F']
+                var_d = None
+            elif p is not None and p.get('k') == 'bin' and p['op'] == '=' and is_ref(p['l']) and strip_casts(p['r']) is c:
+                var_d = strip_casts(p['l'])['d']
+                starts = [y for (y, _l) in cfg.succ[node.id]]
+            elif p is not None and p.get('k') == 'call' and K == 'null':
+                R.ob('TAB17', fn, c, 'pointer result of %s is handed to %s' % (cn, callee_name(p)), True,
+                     'the callee receives the pointer and tests it', key='result:%s:arg' % cn)
+                continue
+            else:
+                decl = [d for d in fn.locals() if 'init' in d and strip_casts(d['init']) is c]
+                if decl:
+                    var_d = decl[0]['d']
+                    starts = [y for (y, _l) in cfg.succ[node.id]]
+                elif node.kind == 'stmt' and strip_casts(node.expr) is c:
+                    # result ignored
+                    ok = K == 'null' and cn != 'ensure'
+                    R.ob('TAB17', fn, c, 'result of %s is used' % cn, ok, 'value-carrying result may be ignored' if ok else
+                         'the status result is dropped: a failure is treated as success', key='result:%s:ignored' % cn)
+                    continue
+                else:
+                    R.ob('TAB17', fn, c, 'result of %s reaches a test' % cn, False,
+                         'used inside %s without first being separated from the failure value' % (expr_str(p)[:40] if p else '?'),
+                         key='result:%s:expr' % cn)
+                    continue
+            # follow the CFG under the hypothesis result == K, with constant propagation of simple locals so that
+            # `status = 11; goto cleanup; ... return status;` and `return detached_item` (still NULL) are recognised
+            env_at = _const_env(fn, cfg)
+            fail_nonzero = fn.name in FAILURE_IS_NONZERO
+            redefs = set()
+            if var_d is not None:
+                for a in assignments(fn):
+                    if is_ref(a['l']) and strip_casts(a['l'])['d'] == var_d and strip_casts(a['r']) is not c:
+                        redefs.add(node_containing(cfg, a).id)
+            base_env = _env_transfer(cfg.nodes[node.id], dict(env_at.get(node.id, {})))
+            seen = {}
+            work = [(y, base_env) for y in starts]
+            bad = None
+            steps = 0
+            while work and bad is None:
+                x, env = work.pop()
+                steps += 1
+                if steps > 5000:
+                    raise AnalysisBroken('TAB17: path exploration does not finish in %s' % fn.name)
+                nd = cfg.nodes[x]
+                if x in redefs:
+                    continue
+                if nd.kind == 'return':
+                    v = None
+                    if nd.expr is not None:
+                        if const_val(nd.expr) is not None:
+                            v = const_val(nd.expr)
+                        elif is_null_const(nd.expr):
+                            v = 0
+                        elif is_ref(nd.expr):
+                            d = strip_casts(nd.expr)['d']
+                            if d == var_d:
+                                continue    # propagates the failure value itself
+                            v = env.get(d)
+                    if v is not None and ((v != 0) if fail_nonzero else (v == 0)):
+                        continue
+                    bad = nd
+                    break
+                env2 = _env_transfer(nd, dict(env))
+                for (y, l) in cfg.succ[x]:
+                    if var_d is not None and nd.kind == 'branch' and l is not None and l[0] in ('T', 'F'):
+                        t = _fold_under(nd.expr, var_d, K)
+                        if t is not None and t != (l[0] == 'T'):
+                            continue
+                    if nd.kind == 'branch' and l is not None and l[0] in ('T', 'F'):
+                        # branches on other constant-valued locals
+                        feasible = True
+                        for dd, cv in env2.items():
+                            t = _fold_under(nd.expr, dd, cv)
+                            if t is not None and t != (l[0] == 'T'):
+                                feasible = False
+                        if not feasible:
+                            continue
+                    sig = tuple(sorted(env2.items()))
+                    if (y, sig) not in seen:
+                        seen[(y, sig)] = True
+                        work.append((y, env2))
+            R.ob('TAB17', fn, c, 'a failed %s cannot lead to a successful return' % cn, bad is None,
+                 'under result == %s only failure returns are reachable' % ('NULL' if K == 'null' else K) if bad is None else
+                 'with %s == %s the return at line %d (%s) is reached: the failure is accepted as a value%s'
+                 % (cn, 'NULL' if K == 'null' else K, bad.line, expr_str(bad.expr)[:30] if bad.expr is not None else 'void',
+                    ('; ' + SENTINEL_NOTE[cn]) if cn in SENTINEL_NOTE else ''),
+                 key='result:%s:%s' % (cn, 'cond' if var_d is None else 'var'))
+    R.floor('TAB17', 'calls of in-band-status functions', n, 45)
+
+
+# ---- C03 structure: acceptance needs a production ----------------------------------------------------------------------------
+
+def c03_structure(units, R):
+    u = units['cJSON.c']
+    # 1. every `return true` of the value parsers is preceded on all paths by a store of the node type
+    for name in ('parse_value', 'parse_array', 'parse_object', 'parse_string', 'parse_number'):
+        fn = u.fn(name)
+        cfg = fn.cfg()
+        tstores = set()
+        for m in cfg.nodes:
+            for ev in node_effects(m):
+                if ev.kind == 'store' and is_mem(ev.lhs, 'type'):
+                    tstores.add(m.id)
+        for r in cfg.returns():
+            if r.expr is None or const_val(r.expr) in (0, None):
+                continue
+            ok = r.id not in cfg.reachable(cfg.entry.id, stop=tstores)
+            R.ob('C03S', fn, r.stmt, '%s reports success only after it stored a node type' % name, ok,
+                 'every path to this return passes a store to ->type' if ok else 'a path accepts input without producing a value',
+                 key='typed-success:%s' % name)
+    # 2. parse_value falls through to `return false`
+    fn = u.fn('parse_value')
+    cfg = fn.cfg()
+    last = [n for n in cfg.returns()]
+    fall = [r for r in last if r.expr is not None and const_val(r.expr) == 0]
+    R.ob('C03S', fn, None, 'parse_value returns false when no production matches', bool(fall), '', key='fallthrough')
+    # 3. containers: the success path needs the matching closing bracket at the cursor
+    for name, closer in (('parse_array', ord(']')), ('parse_object', ord('}'))):
+        fn = u.fn(name)
+        cfg = fn.cfg()
+
+        def closer_edge(nn, l, closer=closer):
+            if nn.kind != 'branch' or l is None:
+                return False
+            p = cmp_parts(nn.expr)
+            if p is None or p[2] != closer or p[1] not in ('==', '!=') or p[0].get('k') not in ('idx', 'un'):
+                return False
+            return (p[1] == '==') == (l[0] == 'T')
+        for r in cfg.returns():
+            if r.expr is None or const_val(r.expr) in (0, None):
+                continue
+            ok = guarded_by(cfg, r.id, closer_edge)
+            R.ob('C03S', fn, r.stmt, '%s succeeds only when the cursor is at %r' % (name, chr(closer)), ok, '', key='closer:%s' % name)
+        # the element loop continues only on a comma
+        loops = [n for n in cfg.nodes if n.kind == 'branch' and (cmp_parts(n.expr) or (None, None, None))[2] == ord(',')]
+        R.ob('C03S', fn, None, '%s continues its element loop only on a comma' % name, bool(loops), '', key='comma:%s' % name)
+        if name == 'parse_object':
+            colon = [n for n in cfg.nodes if n.kind == 'branch' and (cmp_parts(n.expr) or (None, None, None))[2] == ord(':')]
+            # the value is parsed only after the colon comparison succeeded
+            pv = [c for c in fn.calls() if callee_name(c) == 'parse_value']
+            okc = bool(colon) and all(guarded_by(cfg, node_containing(cfg, c).id,
+                                                 lambda nn, l: nn.kind == 'branch' and l is not None and (cmp_parts(nn.expr) or (None, None, None))[2] == ord(':')
+                                                 and ((cmp_parts(nn.expr)[1] == '==') == (l[0] == 'T'))) for c in pv)
+            R.ob('C03S', fn, None, 'a member value is parsed only after the colon', okc, '', key='colon')
+            ps = [c for c in fn.calls() if callee_name(c) == 'parse_string']
+            R.ob('C03S', fn, None, 'member names are parsed as strings', bool(ps), '', key='stringkey')
+    R.floor('C03S', 'structure obligations', len([o for o in R.obs if o.rule == 'C03S']), 12)
